@@ -1,10 +1,52 @@
 import Driver.Util
-open Lean Driver
+import GinjaxVerif.Model.C17
+open Lean Driver GinjaxVerif.C15 GinjaxVerif.C17
 
+/-!
+Driver for C17.  Samples are integers (their own identity).  Multi-images are lists of
+`[key, block]` pairs in insertion order, keys are strings; `perm` is `null` for `rand_key=None`.
+-/
 namespace Driver.C17
 
-def handle (op : String) (_j : Json) : R Json := do
+def asPair {β} (g : Json → R β) (j : Json) : R (String × β) :=
+  match j with
+  | .arr #[k, v] => do
+    let k ← asStr k
+    let v ← g v
+    pure (k, v)
+  | _ => throw s!"not a [key, block] pair: {j.compress}"
+
+def jMI {β} (g : β → Json) (m : MI String β) : Json :=
+  jList (fun kb => Json.arr #[jStr kb.1, g kb.2]) m
+
+def asMI (j : Json) : R (MI String (List Int)) := asList (asPair (asList asInt)) j
+
+def handle (op : String) (j : Json) : R Json := do
   match op with
+  | "c17.batches" =>
+    let B ← natF j "B"
+    let nd ← natF j "nd"
+    let perm ← match optField j "perm" with
+      | none => pure none
+      | some v => do
+        let l ← asList asNat v
+        pure (some l)
+    let mis ← listF asMI j "mis"
+    match getBatches perm B nd mis with
+    | none => throw "rejected"
+    | some out => pure (jList (jList (jMI (jList (jList jInt)))) out)
+  | "c17.reshape_pmap" =>
+    let nd ← natF j "nd"
+    let mi ← field j "mi" >>= asMI
+    match reshapePmap nd mi with
+    | none => throw "rejected"
+    | some out => pure (jMI (jList (jList jInt)) out)
+  | "c17.get_subset" =>
+    let idxs ← listF asNat j "idxs"
+    let mi ← field j "mi" >>= asMI
+    match getSubset idxs mi with
+    | none => throw "rejected"
+    | some out => pure (jMI (jList jInt) out)
   | _ => throw s!"unknown op {op}"
 
 end Driver.C17
